@@ -11,7 +11,7 @@ from ..frontend import REPO, norm
 from ..interp import Config, Interp, _Raise
 from ..ownership import Ownership
 from ..report import Ctx
-from ..values import (ALL_KINDS, ANY_VALUE_KINDS, META_KINDS, NODE_KINDS, SBool, SDict, SFunc, SList, SNew, SObj, SOpaque, SSplat, SStr, Sym,
+from ..values import (ALL_KINDS, ANY_VALUE_KINDS, META_KINDS, NODE_KINDS, SBool, SDict, SInt, SFunc, SList, SNew, SObj, SOpaque, SSplat, SStr, Sym,
                       Unmodelled, short)
 
 JSX = "htmltools._jsx"
@@ -332,6 +332,111 @@ def serialize_table(ctx: Ctx, I: Interp) -> None:
     ctx.require({"NONE", "TRUE", "INT", "LIST", "DICT", "STR", "TAG"} <= seen, "_serialize_attr table incomplete")
 
 
+def render_table(ctx: Ctx, I: Interp) -> None:
+    """_render_react_js per kind of node, and its two loops (props, children)."""
+    prog = ctx.prog
+    where = f"{JSX}:_render_react_js"
+    fn = prog.function(JSX, "_render_react_js")
+    ps = [a.arg for a in fn.args.args]
+    ctx.require(len(ps) == 3, "_render_react_js signature changed")
+
+    def mk_for(kinds: Any):
+        def mk(run: Any):
+            x = SObj("x", set(kinds))
+            ind, eol = SInt("indent"), SObj("eol", {"STR"})
+            run.__dict__["o"] = (x, ind, eol)
+            return ({ps[0]: x, ps[1]: ind, ps[2]: eol}, None)
+        return mk
+
+    cfg = Config()
+    cfg.opaque_all = True
+    cfg.coarse_counts = True
+    seen = set()
+    n_loop_paths = 0
+    for l in I.run_function(JSX, "_render_react_js", mk_for(ANY_VALUE_KINDS | {"JSXEXPR", "META", "HTMLDEP"}), cfg):
+        x = l.run.__dict__["o"][0]
+        v = l.value
+        frags = [f for f in v.frags if f.kind != "REP"] if isinstance(v, SStr) else None
+        for k in sorted(x.kinds):
+            if k in META_KINDS:
+                seen.add(k)
+                ctx.check(l.kind == "return" and (v == "" or (isinstance(v, SStr) and not v.frags)), "C20.js", f"a {k} node contributes no JavaScript", where,
+                          f"{k} -> {short(v)}", f"a metadata node of kind {k} is written into the React expression as {short(v)}")
+            elif k in ("STR", "JSXEXPR"):
+                seen.add(k)
+                q = SStr(frags) if frags is not None else None
+                ctx.check(l.kind == "return" and q is not None and _is_quoted(q, x), "C20.js", f"a {k} child is written as a double-quoted literal with \" escaped", where,
+                          f"{k} -> {short(v)}", f"a string child is written as {short(v)}: a double quote inside it ends the JavaScript literal early",
+                          witness='Foo(\'say "hi"\')')
+            elif k in ("TAG", "JSXTAG"):
+                seen.add(k)
+                ok = l.kind == "return" and frags is not None and len(frags) >= 2 and frags[0].kind == "LIT" and str(frags[0].a).startswith("React.createElement(")
+                nm = None
+                if ok:
+                    for i, f in enumerate(frags):
+                        if f.kind == "OF" and isinstance(f.a, tuple) and str(f.a[1]).endswith(".name") and not f.c:
+                            nm = i
+                            break
+                    ok = nm is not None and nm >= 1 and nm + 1 < len(frags) and frags[nm - 1].kind == "LIT" and frags[nm + 1].kind == "LIT"
+                if ok:
+                    before, after = str(frags[nm - 1].a), str(frags[nm + 1].a)
+                    quoted = before.endswith("'") and after.startswith("'")
+                    bare = not before.endswith(("'", '"')) and not after.startswith(("'", '"'))
+                    ok = quoted if k == "TAG" else bare
+                ctx.check(bool(ok), "C20.js", f"a {k} node becomes React.createElement({'<quoted tag name>' if k == 'TAG' else '<component name>'}, ...)", where,
+                          f"{k} -> {short(v)[:160]}", f"a {k} node is written as {short(v)[:120]}: the element name is not "
+                          f"{'a quoted HTML tag name' if k == 'TAG' else 'the bare component identifier'}",
+                          witness="Foo(div())" if k == "TAG" else "Foo(Bar())")
+                if l.kind == "return" and isinstance(v, SStr):
+                    loops = [f.a for f in v.frags if f.kind == "LOOP"]
+                    nonempty = {a[1]: val for a, val in l.atoms if isinstance(a, tuple) and a[0] == "len-cmp" and a[2] == "==" and a[3] == 0}
+                    if any(val is False for val in nonempty.values()):
+                        n_loop_paths += 1
+    ctx.require({"META", "STR", "TAG", "JSXTAG"} <= seen, "_render_react_js table incomplete")
+    # the two loops: one generic iteration each
+    found = set()
+    for idx in range(4):
+        cfg2 = Config()
+        cfg2.opaque_all = True
+        cfg2.coarse_counts = True
+        cfg2.stop_at_loop = ("_render_react_js", idx)
+        any_rec = False
+        for l in I.run_function(JSX, "_render_react_js", mk_for({"JSXTAG", "TAG"}), cfg2):
+            rec = getattr(l.run, "stop_loop_record", None)
+            if rec is None:
+                continue
+            any_rec = True
+            x, ind, eol = l.run.__dict__["o"]
+            it = rec.iter_value
+            el = rec.__dict__.get("element")
+            start = rec.__dict__.get("body_effect_start", 0)
+            calls = [e for e in l.effects[start:] if e.kind == "call" and isinstance(e.target, SFunc)]
+            d = getattr(it, "iter_descr", None)
+            if d is not None and d[0] == "items" and isinstance(d[1], SObj) and d[1].meta.get("attr_of", (None, None))[0] is x:
+                found.add("props")
+                val = el.items[1] if isinstance(el, SList) and len(el.items) == 2 else None
+                ser = [c for c in calls if c.target.qual in ("_serialize_attr", "_serialize_style_attr")]
+                style = any(str(lbl) == "== 'style'" for _, lbl in l.atoms)
+                ok = len(ser) == 1 and ser[0].value and ser[0].value[0] is val and (ser[0].target.qual == "_serialize_style_attr") == style
+                ctx.check(bool(ok) and l.kind in ("fall", "continue"), "C20.js", f"each prop value is serialised once ({'style' if style else 'other'} prop)", where,
+                          f"prop iteration ({'style' if style else 'non-style'}): {[c.target.qual for c in ser]} on {[short(c.value[0]) for c in ser if c.value]} -> {l.kind}",
+                          "a prop is not written exactly once through _serialize_attr (or _serialize_style_attr for style)",
+                          witness="Foo(a=1, style='color:red')")
+            elif isinstance(it, SObj) and it.meta.get("attr_of", (None, None))[0] is x and it.meta["attr_of"][1] == "children":
+                found.add("children")
+                rr = [c for c in calls if c.target.qual == "_render_react_js"]
+                ok = len(rr) == 1 and rr[0].value and rr[0].value[0] is el and l.kind in ("fall", "continue")
+                deeper = ok and len(rr[0].value) >= 3 and rr[0].value[2] is eol
+                ctx.check(bool(ok and deeper), "C20.js", "each child is rendered once, in order, by a recursive call", where,
+                          f"child iteration: {[short(a) for c in rr for a in c.value]} -> {l.kind}",
+                          "a child of a tag/component is not rendered exactly once by the recursive call: children are dropped, duplicated or cut short",
+                          witness="Foo('a', div('b'), 'c')")
+        if not any_rec:
+            break
+    ctx.require(found == {"props", "children"}, f"_render_react_js loops found: {sorted(found)}")
+    ctx.min_count("_render_react_js paths with props or children", n_loop_paths, 2)
+
+
 def _is_list_serialisation(v: Any, x: SObj) -> bool:
     if not isinstance(v, SStr) or len(v.frags) != 3:
         return False
@@ -414,7 +519,10 @@ def check(ctx: Ctx) -> None:
         "tagifiables that are not tags/components, copies everything else that is mutable, and appends every metadata node it "
         "sees; the returned <script> Tag carries react, react-dom and *metadata_nodes, and the JavaScript is rendered from the "
         "walked copy; _serialize_attr's dispatch table per value kind (None, tags, lists element-wise through _serialize_attr, "
-        "dicts, booleans before numbers, jsx/numbers verbatim, other values quoted); the allow-list check precedes every field "
+        "dicts, booleans before numbers, jsx/numbers verbatim, other values quoted); _render_react_js per node kind (metadata -> nothing, "
+        "strings -> quoted literal with \" escaped, tags -> React.createElement('name', ...), components -> React.createElement(Name, ...)) "
+        "and one generic iteration of its prop loop and its child loop (each prop serialised once, each child rendered once by "
+        "the recursive call); the allow-list check precedes every field "
         "assignment in JSXTag.__init__; the react script files named by the folded constants exist. JavaScript well-formedness "
         "for arbitrary strings is not decided.")
     ctx.trust("copy.copy semantics", "Engine A abstract semantics")
@@ -425,4 +533,5 @@ def check(ctx: Ctx) -> None:
     visitor_table(ctx, I)
     react_files(ctx)
     serialize_table(ctx, I)
+    render_table(ctx, I)
     init_allowlist(ctx, I)
